@@ -41,9 +41,15 @@ def suite_c03(r, n):
             proto = r.pick(["binary", "compact", "json"])
             args = gen_args(r, p, m)
             kinds = ["v", "v", "e", "a"] + (["x", "x"] if m["throws"] else [])
+            # C16 value dimension: a struct-returning handler answering (nil, nil) — the nil *T travels as a typed
+            # nil through every middleware and the emitted processor's `ret[0].(*T)`; the client observes (nil, nil)
+            if m["ret"] is not None and p.resolve(m["ret"]).k == "S": kinds += ["n", "n"]
             if m["oneway"]: kinds = ["v", "v", "e"]
             kind = r.pick(kinds)
-            if kind == "v":
+            if kind == "n":
+                outcome, want = "v", "ok ~"     # bare `v`: the runner's handler leaves the pointer result nil
+                if transport == "bounded": transport = "mem"
+            elif kind == "v":
                 rv = gen_val(r, p, m["ret"], 1) if m["ret"] is not None else None
                 outcome = "v" + (dump_val(rv) if rv is not None else "")
                 want = ("ok " + canon_dump(p, m["ret"], rv)) if rv is not None else "void"
@@ -67,8 +73,8 @@ def suite_c03(r, n):
             # C16 through the emitted wiring: observing middleware at the client constructor, the provider and the
             # processor constructor; the model ops of C16 (Driver.Middleware `mww client`, `mwp`) give the traces
             specs = lambda k: ",".join(["o"] * k) if k else "."
-            cbase = "k" if (kind == "v" or m["oneway"]) else "f"
-            pbase = "k" if kind == "v" else "f"
+            cbase = "k" if (kind in "vn" or m["oneway"]) else "f"
+            pbase = "k" if kind in "vn" else "f"
             mwlines = ("mww client %s %s %s a" % (specs(k1), specs(k2), cbase), "mwp m %s . %s a" % (specs(k3), pbase))
             def trace(n, e, res):
                 evs = ["e%d:a" % i for i in range(n - 1, -1, -1)] + ["b:a"] + ["x%d:%s/%s" % (i, res, e) for i in range(n)]
